@@ -430,6 +430,8 @@ def cases(tier):
                 variants = [(False, False)] if kind != 'plain' else list(itertools.product((False, True), repeat=2))
                 for resid, resname in variants:
                     for res in range(GRAPHS[graph][0]):
+                        if tier == 'quick' and not chain and res > 0:
+                            continue        # without a chain part only the first residue is run in the quick tier
                         out.append({'fn': 'check_matcher',
                                     'part': {'graph': graph, 'kind': kind, 'chain': chain, 'resid': resid, 'resname': resname,
                                              'res': res},
